@@ -32,15 +32,28 @@ func (rr *RoundRobinStrategy) NextBackend(r *http.Request) *Backend {
 	}
 
 	// Get the next index in a thread-safe way, skipping backends that are
-	// inside an unhealthy window (at most one full turn).
+	// inside an unhealthy window. Concurrent requests draw from the same
+	// counter, so one full turn of draws may land on ineligible backends only
+	// although an eligible one exists: keep drawing as long as there is one.
 	now := time.Now()
-	for range rr.backends {
-		idx := atomic.AddUint64(&rr.current, 1) % uint64(len(rr.backends))
-		if rr.backends[idx].eligible(now) {
-			return rr.backends[idx]
+	for {
+		for range rr.backends {
+			idx := atomic.AddUint64(&rr.current, 1) % uint64(len(rr.backends))
+			if rr.backends[idx].eligible(now) {
+				return rr.backends[idx]
+			}
+		}
+		anyEligible := false
+		for _, b := range rr.backends {
+			if b.eligible(now) {
+				anyEligible = true
+				break
+			}
+		}
+		if !anyEligible {
+			return nil
 		}
 	}
-	return nil
 }
 
 // AddBackend adds a backend to the pool
